@@ -26,6 +26,9 @@ OUTSIDE = ["bgzipped references (opened by pyfaidx directly)", "that gffutils bu
 
 def setup_symbolic():
     shims.install([ap], ["min", "max"])
+    from props import handoff, c05
+    handoff.setup_symbolic()
+    c05.setup_symbolic()
 
 
 class Rec:
@@ -246,6 +249,13 @@ def instances(tier, seed):
         out.append(Instance("merger[records=%d,files=%d]" % (n, k), h_merger(n, k), [A + "BAMOnlineMerger.__init__", A + "BAMOnlineMerger._set", A + "BAMOnlineMerger.get",
                                                                                     A + "make_alignment_tuple"],
                             "%d records with symbolic positions, every partition over %d files" % (n, k), weight=k ** n * 5, budget_s=1200))
+    # alignments split over several BAM files of one experiment: the hand-off of read collection (shared harness of C08/C09)
+    from props import handoff
+    out.append(Instance("split_bam_handoff[files=2]", handoff.h_handoff(1, ("NA",), 2), ["src.dataset_processor:DatasetProcessor.collect_reads"],
+                        "one experiment with two BAM files, symbolic unmapped-read counts per file, both memory modes", weight=20))
+    from props import c05
+    out.append(Instance("split_bam_regions[n=2,files=2]", c05.h_split(2, 6, 14, False, 2), c05.instances(tier, seed)[0].funcs,
+                        "2 alignments spread over 2 BAM files by the solver (a file may have none), scaled constants, both memory modes", weight=100, budget_s=1200))
     out.append(Instance("cache_lookup", h_cache, ["src.gtf2db:find_converted_db", "src.gtf2db:compare_stored_gtf"],
                         "symbolic existence bits, current and recorded modification times, flags", weight=20))
     out.append(Instance("gz_reference", h_gz_reference, ["src.dataset_processor:DatasetProcessor.__init__"],
